@@ -13,6 +13,7 @@ byte order of the joined path strings (`C15_not_string_order`).
 -/
 import S4V.Lemmas.Walk
 import S4V.Props.C16
+import S4V.Model.WalkTar
 
 namespace S4V.Props.WalkSpec
 open S4V.Model.Walk S4V.Model.Path S4V.Model.PathTypes S4V.Gen.PathTables
@@ -283,5 +284,207 @@ theorem C15_pathid_sources (es : List Entry) :
     have h : ((withIds es).map (·.2)).Pairwise (· < ·) := by
       rw [(C15_pathid es).2]; exact List.pairwise_lt_range
     exact List.Pairwise.map _ (fun a b hab => hab) ((List.pairwise_map.mp h).filter _)
+
+/-! ### tar archives: members reached by walking a directory vs. by naming the archive
+
+Model: `S4V.Model.WalkTar` (`process_path_tar` and its two call sites in `process_path`) over the
+constants regenerated from the source (`S4V.Gen.WalkTar`). -/
+
+section Tar
+open S4V.Model.WalkTar S4V.Gen.WalkTar
+
+/-- **C15 for tar members.** For every archive content, every flag value of the caller and every
+path, the results for a `.tar` met while walking a directory are the results for the same `.tar`
+named explicitly: same members, same order, same types, same sub-paths. Both call sites must hand
+`process_path_tar` the same `unparseable_are_text` (generated constants, unfolded: a source change
+at either call site regenerates another value and breaks this proof).
+Hypothesis: the path is valid UTF-8, i.e. `path_to_fpath` (lossy) leaves it as it is — every path
+that can be named on the command line is (arguments are `String`s). -/
+theorem C15_tar_members (u : Bool) (p : List Bytes) (ar : Archive)
+    (hp : toStringLossy (joinPath p) = joinPath p) :
+    walkedTar u p ar = namedTar u p ar := by
+  unfold walkedTar namedTar walkedTarWith namedTarWith fpath
+  rw [hp]
+  unfold walkTarPassesFlag walkTarFlagLit namedTarPassesFlag namedTarFlagLit
+  rfl
+
+/-- `d/b.tar` -/
+def tarPathEx : List Bytes := [[100], [98, 46, 116, 97, 114]]
+
+/-- an archive with the one regular, non-empty member `dump.bin` -/
+def dumpArchive : Archive := ⟨[⟨[[100, 117, 109, 112, 46, 98, 105, 110]], .regular, false⟩], false⟩
+
+example : toStringLossy (joinPath tarPathEx) = joinPath tarPathEx := by decide
+
+/-- Counter-model (the planted change `process_path_tar(&path_to_fpath(std_path_entry), false, fta)`):
+if the walk arm passed the literal `false` instead of its parameter, then — as `main` calls
+`process_path` — there is an archive whose walked expansion differs from the named one. -/
+theorem tar_flag_false_loses :
+    walkedTarWith false false mainUnparseableAreText tarPathEx dumpArchive
+      ≠ namedTar mainUnparseableAreText tarPathEx dumpArchive := by
+  decide
+
+/-- … namely: walked with `false`, `d/b.tar|dump.bin` is listed as not supported and never read;
+named, it is read as text from the tar. -/
+example :
+    walkedTarWith false false true tarPathEx dumpArchive
+      = [⟨[100, 47, 98, 46, 116, 97, 114, 124, 100, 117, 109, 112, 46, 98, 105, 110], .notSupported⟩]
+    ∧ namedTar true tarPathEx dumpArchive
+      = [⟨[100, 47, 98, 46, 116, 97, 114, 124, 100, 117, 109, 112, 46, 98, 105, 110], .valid ⟨.text, .tar⟩⟩]
+    ∧ walkedTar true tarPathEx dumpArchive = namedTar true tarPathEx dumpArchive := by decide
+
+/-- The flag is the only way the two call sites can differ: with equal flags and a UTF-8 path the
+expansions agree whatever the call-site shapes are. -/
+theorem C15_tar_members_of_flags (pw lw pn ln u : Bool) (p : List Bytes) (ar : Archive)
+    (hp : toStringLossy (joinPath p) = joinPath p) (hf : flagArg pw lw u = flagArg pn ln u) :
+    walkedTarWith pw lw u p ar = namedTarWith pn ln u p ar := by
+  unfold walkedTarWith namedTarWith fpath
+  rw [hp, hf]
+
+example : flagArg true false true = flagArg true true true := by decide
+
+/-- What the generator checked in the member loop of `process_path_tar` (it raises an error
+otherwise) and the separator between the archive's path and the member's. -/
+theorem C15_tar_shape : tarSkipsNonRegular = true ∧ tarZeroSizeIsEmpty = true ∧ tarMemberUsesFlag = true
+    ∧ subpathSep = [124] := by
+  unfold tarSkipsNonRegular tarZeroSizeIsEmpty tarMemberUsesFlag subpathSep
+  decide
+
+/-- The final `match` of `process_path_tar` (generated table): a member is read exactly when its own
+name classifies with `archival_type: Normal`; a compressed member (`x.log.gz` inside the tar) is
+answered with "cannot extract", whatever its family. -/
+theorem C15_tar_rows (f : Family) (a : Arch) : lookupRow f a = some (a == .normal) := by
+  cases f <;> cases a <;> decide
+
+/-- Non-regular entries (directories, links, …) give no result, whatever their name and size. -/
+theorem C15_tar_other_skipped (tp : Bytes) (ua : Bool) (n : List Bytes) (z : Bool) :
+    memberResult tp ua ⟨n, .other, z⟩ = none := rfl
+
+/-- A regular member of size 0 is reported `FileErrEmpty` without looking at its name. -/
+theorem C15_tar_empty (tp : Bytes) (ua : Bool) (n : List Bytes) :
+    memberResult tp ua ⟨n, .regular, true⟩ = some ⟨fullPath tp ⟨n, .regular, true⟩, .empty⟩ := rfl
+
+/-- The order of results is the stored order of the members; an iteration error comes last. -/
+theorem C15_tar_order (tp : Bytes) (ua : Bool) (ms₁ ms₂ : List Member) (b : Bool) :
+    processPathTar tp ua ⟨ms₁ ++ ms₂, b⟩ = processPathTar tp ua ⟨ms₁, false⟩ ++ processPathTar tp ua ⟨ms₂, b⟩ := by
+  simp [processPathTar, List.filterMap_append]
+
+/-- As `main` calls it (`unparseable_are_text = true`), no regular non-empty member is dropped for
+its suffix (`FileErrNotSupported(_, None)` never arises): `C16_explicit_always` inside the tar. -/
+theorem C15_tar_main_never_drops (m : Member) : memberOut mainUnparseableAreText m ≠ .notSupported := by
+  unfold mainUnparseableAreText memberOut
+  cases hc : classify (m.name.getLastD []) true with
+  | none => simp
+  | some r =>
+    have hne := C16_explicit_always _ r hc
+    obtain ⟨k, a⟩ := r
+    cases k <;> simp_all [familyOf, C15_tar_rows] <;> (generalize (a == Arch.normal) = b; cases b <;> simp)
+
+/-- `x.tar` holding: directory `sub/`, `sub/app.log`, empty `e.log`, `dump.bin`, `x.log.gz`,
+`in.tar`; then a corrupt header. Named by `main` (flag `true`). -/
+example :
+    (processPathTar [120] true
+      ⟨[⟨[[115, 117, 98], []], .other, true⟩,
+        ⟨[[115, 117, 98], [97, 112, 112, 46, 108, 111, 103]], .regular, false⟩,
+        ⟨[[101, 46, 108, 111, 103]], .regular, true⟩,
+        ⟨[[100, 117, 109, 112, 46, 98, 105, 110]], .regular, false⟩,
+        ⟨[[120, 46, 108, 111, 103, 46, 103, 122]], .regular, false⟩,
+        ⟨[[105, 110, 46, 116, 97, 114]], .regular, false⟩], true⟩).map (·.out)
+      = [.valid ⟨.text, .tar⟩, .empty, .valid ⟨.text, .tar⟩, .cannotExtract .gz, .nested, .err] := by decide
+
+/-- One walked entry, archives expanded: unless it is a `.tar` there is nothing to expand, and a
+`.tar` expands as it would when named. -/
+theorem C15_tar_entry (u : Bool) (fs : TarFs) (e : Entry)
+    (hp : toStringLossy (joinPath e.path) = joinPath e.path) :
+    expandWalked u fs e = expandNamed u fs e := by
+  unfold expandWalked expandNamed
+  cases e.out <;> simp [C15_tar_members u e.path (fs e.path) hp]
+
+example : toStringLossy (joinPath (⟨tarPathEx, .tar .normal⟩ : Entry).path) = joinPath (⟨tarPathEx, .tar .normal⟩ : Entry).path := by
+  decide
+
+theorem classifyNamed_path (p : List Bytes) (c : Bytes) : (classifyNamed p c).path = p := by
+  unfold classifyNamed
+  split
+  · rfl
+  · split <;> rfl
+
+/-- A kept file met in the walk — plain or `.tar` — contributes exactly the results of naming it
+(given that its path is valid UTF-8). -/
+theorem C15_tar_walked_eq_named (u : Bool) (fs : TarFs) (par p : List Bytes) (hk : keep p = true)
+    (hp : toStringLossy (joinPath (par ++ p)) = joinPath (par ++ p)) :
+    expandWalked u fs ⟨par ++ p, (classifyWalked p).out⟩
+      = expandArgFull false u fs (fileArg par p) := by
+  unfold fileArg expandArgFull
+  rw [classifyWalked_eq_named par p hk]
+  exact C15_tar_entry u fs _ (by rw [classifyNamed_path]; exact hp)
+
+example : keep [[98, 46, 116, 97, 114]] = true
+    ∧ toStringLossy (joinPath ([[100]] ++ [[98, 46, 116, 97, 114]])) = joinPath ([[100]] ++ [[98, 46, 116, 97, 114]]) := by
+  decide
+
+/-- A file met in the walk whose name is of a known non-log type contributes nothing that is read. -/
+theorem C15_tar_walked_dropped (u : Bool) (fs : TarFs) (par p : List Bytes) (hk : keep p = false) :
+    (expandWalked u fs ⟨par ++ p, (classifyWalked p).out⟩).filter Res.attempted = [] := by
+  have ha := classifyWalked_attempted p
+  rw [hk] at ha
+  unfold expandWalked
+  cases ho : (classifyWalked p).out <;> simp_all [Res.attempted, Outcome.attempted]
+
+example : keep [[112, 46, 112, 110, 103]] = false := by decide
+
+theorem flatMap_filter_keep {α β : Type} (k : α → Bool) (q : β → Bool) (f g : α → List β) :
+    ∀ l : List α, (∀ a ∈ l, k a = true → f a = g a) → (∀ a ∈ l, k a = false → (f a).filter q = []) →
+      (l.flatMap f).filter q = ((l.filter k).flatMap g).filter q
+  | [], _, _ => rfl
+  | a :: l, hkeep, hdrop => by
+    have ih := flatMap_filter_keep k q f g l (fun b hb => hkeep b (List.mem_cons_of_mem a hb))
+      (fun b hb => hdrop b (List.mem_cons_of_mem a hb))
+    cases h : k a
+    · simp [h, hdrop a List.mem_cons_self h, ih]
+    · simp [h, hkeep a List.mem_cons_self h, ih]
+
+/-- **Directory = explicit list, archives included.** For a tree without hidden names whose paths are
+valid UTF-8: what is read when the directory is named — plain files and the members of every `.tar`
+below it — is what is read when the sorted list of its kept files is named explicitly (each `.tar`
+then being expanded by the named branch), in the same order with the same types.
+Extends `C15_dir_eq_explicit` to `S4V.Model.WalkTar`; `fs` is any content of the tar-named files. -/
+theorem C15_dir_eq_explicit_tar (includeHidden u : Bool) (fs : TarFs) (parent : List Bytes) (t : Node)
+    (hok : okN t = true) (hh : noHiddenN t = true)
+    (l : List (List Bytes)) (hl : l.Perm (files t)) (hs : l.Pairwise (fun p q => pathLt p q = true))
+    (hutf : ∀ p ∈ l, toStringLossy (joinPath (parent ++ p)) = joinPath (parent ++ p)) :
+    (expandArgsFull includeHidden u fs [.dir parent t]).filter Res.attempted
+      = (expandArgsFull includeHidden u fs ((l.filter keptWhenWalked).map (fileArg parent))).filter Res.attempted := by
+  have hw := C15_walk_is_sorted_files includeHidden t hok hh l hl hs
+  have hpth : ∀ p, (classifyWalked p).path = p := by
+    intro p; unfold classifyWalked; split
+    · rfl
+    · split <;> rfl
+  simp only [expandArgsFull, List.flatMap_cons, List.flatMap_nil, List.append_nil, expandArgFull, expandDirAll, hw,
+    List.flatMap_map, hpth]
+  exact flatMap_filter_keep keptWhenWalked Res.attempted _ _ l
+    (fun p hm hk => C15_tar_walked_eq_named u fs parent p (by simpa [keptWhenWalked] using hk) (hutf p hm))
+    (fun p _ hk => C15_tar_walked_dropped u fs parent p (by simpa [keptWhenWalked] using hk))
+
+/-- the hypotheses are satisfiable: `d/{a-b, a/x, a.log}` below the parent `p` -/
+example : okN exTree = true ∧ noHiddenN exTree = true
+    ∧ (walk true exTree).Perm (files exTree) ∧ (walk true exTree).Pairwise (fun p q => pathLt p q = true)
+    ∧ ∀ p ∈ walk true exTree, toStringLossy (joinPath ([[112]] ++ p)) = joinPath ([[112]] ++ p) := by
+  refine ⟨by decide, by decide, C15_walk_complete exTree, by decide, by decide⟩
+
+/-- `d/{a.log, b.tar, p.png}` with `b.tar` = {`dump.bin`}: naming `d` reads `d/a.log` and `d/b.tar|dump.bin`
+(as text), exactly what naming `d/a.log d/b.tar` reads; `d/p.png` is listed and not read. -/
+example :
+    let fs : TarFs := fun _ => dumpArchive
+    let d : Node := .dir [100] [.file [97, 46, 108, 111, 103], .file [98, 46, 116, 97, 114], .file [112, 46, 112, 110, 103]]
+    (expandArgsFull true true fs [.dir [] d]).filter Res.attempted
+      = [.plain [[100], [97, 46, 108, 111, 103]] (.valid ⟨.text, .normal⟩),
+         .member ⟨[100, 47, 98, 46, 116, 97, 114, 124, 100, 117, 109, 112, 46, 98, 105, 110], .valid ⟨.text, .tar⟩⟩]
+    ∧ (expandArgsFull true true fs [.dir [] d]).filter Res.attempted
+      = (expandArgsFull true true fs [fileArg [] [[100], [97, 46, 108, 111, 103]], fileArg [] [[100], [98, 46, 116, 97, 114]]]).filter
+          Res.attempted := by
+  decide
+
+end Tar
 
 end S4V.Props.WalkSpec
